@@ -18,6 +18,7 @@ type Event struct {
 	T    *Term // predicted value when symbolic
 	Conc string
 	Ts   []*Term // multi-term events (symbolic strings)
+	KeyTs []*Term // terms filling the placeholders of ID (symbolic map keys)
 }
 
 type Input struct {
@@ -47,6 +48,7 @@ type PathResult struct {
 	Detail   string
 	Events   []Event
 	EventVal []string // predicted values aligned with Events
+	EventID  []string // event ids with symbolic map keys filled in from the model
 	Inputs   map[string]string
 	HasModel bool
 	CEs      []*CounterExample
@@ -389,6 +391,11 @@ func (ex *Exec) runPath(fn *ssa.Function, prefix []int) (res *PathResult, pendin
 				symEv = append(symEv, t)
 			}
 		}
+		for _, t := range e.KeyTs {
+			if !t.conc {
+				symEv = append(symEv, t)
+			}
+		}
 	}
 	m, vals, ok := ex.model(symEv)
 	if ok {
@@ -403,39 +410,25 @@ func (ex *Exec) runPath(fn *ssa.Function, prefix []int) (res *PathResult, pendin
 			return vals[k-1]
 		}
 		for _, e := range ex.events {
-			if e.Ts != nil {
-				switch e.Kind {
-				case "observe-bytes":
-					bs := make([]byte, len(e.Ts))
-					for i, t := range e.Ts {
-						bs[i] = byte(next(t))
+			res.EventVal = append(res.EventVal, evalEvent(e, next))
+			id := e.ID
+			for _, t := range e.KeyTs {
+				bits := next(t)
+				switch {
+				case strings.Contains(id, "\x02") && (!strings.Contains(id, "\x03") || strings.Index(id, "\x02") < strings.Index(id, "\x03")):
+					id = strings.Replace(id, "\x02", fmtVal(t, bits), 1)
+				case strings.Contains(id, "\x03"):
+					a := strings.Index(id, "\x03")
+					b := a + 1 + strings.Index(id[a+1:], "\x03")
+					strs := strings.Split(id[a+1:b], "\x00")
+					r := "s:?"
+					if int(bits) < len(strs) {
+						r = "s:" + strs[bits]
 					}
-					res.EventVal = append(res.EventVal, "s:"+string(bs))
-				case "observe-strlen":
-					res.EventVal = append(res.EventVal, "s:"+strings.Repeat("x", int(next(e.Ts[0]))))
-				case "observe-sdec":
-					t := e.Ts[0]
-					res.EventVal = append(res.EventVal, "s:"+fmt.Sprint(sext(next(t), t.w)))
-				case "observe-udec":
-					res.EventVal = append(res.EventVal, "s:"+fmt.Sprint(next(e.Ts[0])))
+					id = id[:a] + r + id[b+1:]
 				}
-				continue
 			}
-			if e.T == nil {
-				res.EventVal = append(res.EventVal, e.Conc)
-				continue
-			}
-			bits := next(e.T)
-			if e.Kind == "observe-str" {
-				strs := strings.Split(e.Conc, "\x00")
-				if int(bits) < len(strs) {
-					res.EventVal = append(res.EventVal, "s:"+strs[bits])
-				} else {
-					res.EventVal = append(res.EventVal, "s:?")
-				}
-				continue
-			}
-			res.EventVal = append(res.EventVal, fmtVal(e.T, bits))
+			res.EventID = append(res.EventID, id)
 		}
 	}
 	if res.Outcome == "PANIC" || res.Outcome == "UNWIND" {
@@ -519,4 +512,37 @@ var skipInitPkgs = map[string]bool{
 	"github.com/fxamacker/cbor/v2": true, "internal/reflectlite": true, "sync/atomic": true, "unsafe": true, "internal/bytealg": true,
 	"math/rand": true, "math/big": true, "testing": true, "flag": true, "encoding/base64": true, "encoding/binary": true, "bufio": true,
 	"golang.org/x/text/cases": true, "golang.org/x/text/language": true, "gopkg.in/yaml.v3": true, "go/format": true,
+}
+
+func evalEvent(e Event, next func(*Term) uint64) string {
+	if e.Ts != nil {
+		switch e.Kind {
+		case "observe-bytes":
+			bs := make([]byte, len(e.Ts))
+			for i, t := range e.Ts {
+				bs[i] = byte(next(t))
+			}
+			return "s:" + string(bs)
+		case "observe-strlen":
+			return "s:" + strings.Repeat("x", int(next(e.Ts[0])))
+		case "observe-sdec":
+			t := e.Ts[0]
+			return "s:" + fmt.Sprint(sext(next(t), t.w))
+		case "observe-udec":
+			return "s:" + fmt.Sprint(next(e.Ts[0]))
+		}
+		return "?"
+	}
+	if e.T == nil {
+		return e.Conc
+	}
+	bits := next(e.T)
+	if e.Kind == "observe-str" {
+		strs := strings.Split(e.Conc, "\x00")
+		if int(bits) < len(strs) {
+			return "s:" + strs[bits]
+		}
+		return "s:?"
+	}
+	return fmtVal(e.T, bits)
 }
